@@ -207,11 +207,11 @@ PROPS["C07"] = dict(
 
 PROPS["C19"] = dict(
     title="Suspend really suspends; resume picks up and completes",
-    module="Cfdp.Props.C19m",
+    module="Cfdp.Props.C19n",
     namespace="Cfdp.Loop",
     theorems=["C19_send_quiet", "C19_send_no_timer_fault", "C19_send_permit_ignored", "C19_send_resume",
               "C19_recv_quiet", "C19_recv_no_timer_fault", "C19_recv_suspend", "C19_recv_resume", "C19_send_run_quiet",
-              "Cfdp.Net.C19_completes_despite_suspensions", "C19_resume_round", "C19_resume_lossy_rounds", "C19_resume_then_lost_finisheds"],
+              "Cfdp.Net.C19_completes_despite_suspensions", "C19_resume_round", "C19_resume_lossy_rounds", "C19_resume_then_lost_finisheds", "C19_send_resume_then_lost_eofs"],
     engines=["send", "recv", "daemon"],
     design="§6 C19",
     technique="Lean 4 proofs over the sender/receiver models and the task-loop step (gating of the send/timeout branches), resume composed with a recovery round through both models + differential correspondence",
@@ -224,13 +224,13 @@ PROPS["C19"] = dict(
                 "Resume picks the recovery up (Props/C19r.lean): the Resume.request of a receiver suspended in mid-recovery itself rebuilds the request queue from the segment list "
                 "and starts the NAK counter afresh (resume_rebuilds), so a resume followed by a round in which nothing is lost - the NAKs reach the sender, the answers the receiver, "
                 "any order, any duplicates - ends Finished / NoError / Complete / Retained without any timer expiry in between (C19_resume_round, on top of C02_full_round_after_wake). "
-                "Under further losses (Props/C19l.lean): the Resume.request and the transmission of the rebuilt queue put the receiver in the starting state of C02's NAK loop - data untouched, nothing to transmit, NAK and inactivity counters at zero since the resume (resume_enters_loop) - so any fair lossy schedule of rounds counted from the resume in which every missing byte gets through at least once ends Finished / NoError / Complete / Retained, as for a transfer that was never suspended (C19_resume_lossy_rounds, on top of C02_lossy_rounds_fair). A resume in the closing handshake (Props/C19m.lean): a receiver suspended after it had transmitted its Finished PDU - after a delivery or a cancel - is put by the Resume.request in the starting state of the Finished retransmission loop, both counters afresh (resume_enters_wait), so the Finished PDU or its ACK lost up to limit-1 times, counted from the resume, still ends both transactions with the receiver's outcome (C19_resume_then_lost_finisheds). "
+                "Under further losses (Props/C19l.lean): the Resume.request and the transmission of the rebuilt queue put the receiver in the starting state of C02's NAK loop - data untouched, nothing to transmit, NAK and inactivity counters at zero since the resume (resume_enters_loop) - so any fair lossy schedule of rounds counted from the resume in which every missing byte gets through at least once ends Finished / NoError / Complete / Retained, as for a transfer that was never suspended (C19_resume_lossy_rounds, on top of C02_lossy_rounds_fair). A resume in the closing handshake (Props/C19m.lean): a receiver suspended after it had transmitted its Finished PDU - after a delivery or a cancel - is put by the Resume.request in the starting state of the Finished retransmission loop, both counters afresh (resume_enters_wait), so the Finished PDU or its ACK lost up to limit-1 times, counted from the resume, still ends both transactions with the receiver's outcome (C19_resume_then_lost_finisheds). And the sender (Props/C19n.lean): suspended after it had transmitted its EOF (regular or cancelling), it is put by the Resume.request back into the EOF retransmission loop with the counts it had - suspension stops the counters, it does not clear them (send_resume_enters_wait) - so every expiry after the resume below the limits is followed by that same EOF (C19_send_resume_then_lost_eofs). "
                 "Tie to the code: send and recv engines with suspend/resume injected at random points and arbitrary suspension lengths; oracles quiet / fault_while_suspended."),
     level_note=RECV_SEND_NOTE + " The completion-after-resume sentence of the property is a theorem for a round without losses after the resume (C19_resume_round) and for any fair lossy schedule of NAK-loop rounds after it (C19_resume_lossy_rounds); the other phases under loss are C02's.",
     rule=("daemon engine (two real daemons): in every third multi-transaction scenario one acknowledged six-segment transfer is suspended through its daemon (UserPrimitive::Suspend) right after its Put and resumed 1.5 s later - oracle daemon_suspended_silent (nothing of that transaction is handed to the link in between) and completion after the Resume (C11 others_unaffected). send + recv engines (see C07/C04): about one history in nine contains suspend, time passing (0 to 30 s), timeouts, send attempts, resume; "
           "fault handlers that suspend (8:s, 1:s, 7:s) make suspension by fault frequent. Non-trivial = a PDU was emitted or an indication raised."),
     assumptions=["the loop consults has_pdu_to_send()/until_timeout() before every iteration (lib.rs select! guards), as modelled in Model/Loop.lean"],
-    unproved=["completion after a resume is a theorem for the receiver's data-recovery phase (C19_resume_round without losses, C19_resume_lossy_rounds under fair loss); and for the receiver's closing handshake (C19_resume_then_lost_finisheds); a resume of the sender with its EOF unacknowledged under loss, and suspensions in the middle of a lossy schedule, are checked by the recv / send / daemon engines; that suspensions do not change the outcome once everything is delivered is C19_completes_despite_suspensions"],
+    unproved=["completion after a resume is a theorem for the receiver's data-recovery phase (C19_resume_round without losses, C19_resume_lossy_rounds under fair loss); and for the receiver's closing handshake (C19_resume_then_lost_finisheds); and for the sender's EOF handshake (C19_send_resume_then_lost_eofs); suspensions in the middle of a lossy schedule (several suspend / resume pairs interleaved with losses) are checked by the recv / send / daemon engines; that suspensions do not change the outcome once everything is delivered is C19_completes_despite_suspensions"],
 )
 
 PROPS["C20"] = dict(
